@@ -222,7 +222,9 @@ func bubble(p *Plan, world *World, v *Variant, opts ExecOpts, out *Outcome) {
 	default:
 	}
 	out.Lists = d.Lists
-	out.Opens = d.Opens
+	d.mu.Unlock()
+	out.Opens = d.OpenCalls()
+	d.mu.Lock()
 	for _, s := range d.Streams {
 		out.Streams = append(out.Streams, s.Info)
 	}
